@@ -121,7 +121,7 @@ def drv_edit_ops():
 
 def replay_edit(ctx, path):
     """re-execute a recorded edit trace against the current tree and re-validate it"""
-    from decwire import unwire
+    from decwire import unwire, unpwire, undec
     from model import build
 
     with open(path) as f:
@@ -136,8 +136,9 @@ def replay_edit(ctx, path):
             op, a = ev["op"], ev["args"]
 
             def mk(c):
-                return build({"cls": c["cls"], "name": c["name"], "params": unwire(c["pay"]["params"]),
-                              "limits": {k: unwire(v) for k, v in c["pay"]["limits"]} or None})
+                return build({"cls": c["cls"], "name": c["name"],
+                              "params": {k: unpwire(v) for k, v in c["pay"]["params"].items() if k != "type"},
+                              "limits": {k: [float(undec(x)) for x in v] for k, v in c["pay"]["limits"]} or None})
             if op == "new":
                 from sysloss.system import System
                 s = System("sys", mk(a["comp"]), rail=a["rail"], group=a["group"])
@@ -160,10 +161,10 @@ def replay_edit(ctx, path):
                 elif op == "del_comp":
                     tgt.del_comp(a["target"], del_childs=a["delchilds"])
                 elif op == "set_sys_phases":
-                    tgt.set_sys_phases({p["name"]: unwire(p["dur"]) for p in a["phases"]})
+                    tgt.set_sys_phases({p["name"]: float(undec(p["dur"])) for p in a["phases"]})
                 elif op == "set_comp_phases":
                     c = a["conf"]
-                    conf = {k: unwire(v) for k, v in c["v"]} if c["t"] == "map" else (list(c["v"]) if c["t"] == "list" else ({} if c["t"] == "none" else ("p",)))
+                    conf = {k: float(undec(v)) for k, v in c["v"]} if c["t"] == "map" else (list(c["v"]) if c["t"] == "list" else ({} if c["t"] == "none" else ("p",)))
                     tgt.set_comp_phases(a["ref"], conf)
                 elif hasattr(tgt, op):
                     getattr(tgt, op)()
